@@ -142,6 +142,112 @@ def label_sweep(rep, rng, n):
             rep.property_failure(case, f"the lazy report {got[:4]} differs from the violating cells {want[:4]}")
 
 
+def depth_counts_sweep(rep, rng, n):
+    """`error_counts` equals the number of collected errors per reason at every validation depth (parsers raise their
+    errors at any depth: coercion failures, strict / ordered), on schemas with parsing options"""
+    from collections import Counter as C_
+    from pandera.config import ValidationDepth, config_context
+    from . import c03
+    import pandera as pa
+    for _ in range(n):
+        c = c03.gen_case(rng, drop_rate=0.0)
+        S, D = c["schema"], c["frame"]
+        if rng.random() < 0.5:
+            S["strict"] = "yes"
+        for depth in (ValidationDepth.SCHEMA_ONLY, ValidationDepth.DATA_ONLY, ValidationDepth.SCHEMA_AND_DATA):
+            try:
+                schema, df = A.schema_of(S), A.frame_of(D)
+            except Exception:  # noqa: BLE001
+                break
+            with config_context(validation_depth=depth):
+                kind, out = P.run_validate(schema, df, lazy=True)
+            rep.evaluations += 1
+            rep.count(f"depth-counts:{depth.name}:{kind}")
+            if kind != "errors":
+                continue
+            collected = C_(e.reason_code.name for e in out.schema_errors)
+            try:
+                reported = dict(out.error_counts)
+                rows = len(out.failure_cases)
+            except Exception as e:  # noqa: BLE001
+                rep.property_failure({"mode": "depth-counts", "schema": S, "frame": D, "depth": depth.name},
+                                     f"the lazy report could not be built under {depth.name}: {type(e).__name__}")
+                continue
+            if reported != dict(collected):
+                rep.property_failure({"mode": "depth-counts", "schema": S, "frame": D, "depth": depth.name},
+                                     f"under {depth.name} error_counts {reported} differ from the collected errors per reason "
+                                     f"{dict(collected)}")
+
+
+def multiindex_report_sweep(rep, rng, n):
+    """violations on the levels of a MultiIndex: the lazy report names them by the row's label (the tuple of level values),
+    like every other row-level failure case, and names every violating cell the Lean model lists"""
+    import pandas as pd
+    import pandera as pa
+    cases, metas = [], []
+    for _ in range(n):
+        c = P.gen_case(rng, regex_rate=0.0, index_schema_rate=0.0, conform_bias=0.55, max_rows=4)
+        S, D = c["schema"], c["frame"]
+        if len(D["cols"]) < 2 or not D["nrows"]:
+            continue
+        levels = rng.sample(D["cols"], 2)
+        names = ["i0", "i1"]
+        specs = []
+        for j, lv in enumerate(levels):
+            sp = next((x for x in S["columns"] if x["name"] == lv["name"] and x["regex"] is None), None)
+            sp = dict(sp) if sp else {"dtype": lv["dtype"], "nullable": True, "unique": False, "checks": [], "reportDup": "first"}
+            sp.update(name=names[j], regex=None, required=True, coerce=False, default=None)
+            for ck in sp["checks"]:
+                ck["ignoreNa"] = True
+            specs.append(sp)
+        model_schema = {"columns": specs, "index": None, "strict": "no", "ordered": False, "unique": [], "reportDup": "first",
+                        "coerce": False, "addMissing": False, "dropInvalid": False}
+        model_frame = {"cols": [dict(lv, name=names[j]) for j, lv in enumerate(levels)], "index": A.default_index(D["nrows"]),
+                       "nrows": D["nrows"]}
+        cases.append({"schema": model_schema, "frame": model_frame, "depth": "schemaAndData"})
+        metas.append({"mode": "multiindex-report", "specs": specs, "levels": levels, "nrows": D["nrows"]})
+    ans = run_driver("C01", cases)
+    for mc, m, a in zip(cases, metas, ans):
+        if "error" in a or not a["wf"] or not P.checks_typed(mc) or not P.well_typed(mc) or a.get("outOfScope"):
+            continue
+        try:
+            arrays = [A.series_of(lv["vals"], lv["dtype"]).values for lv in m["levels"]]
+            idx = pd.MultiIndex.from_arrays(arrays, names=["i0", "i1"])
+            df = pd.DataFrame({"v": pd.Series(range(m["nrows"]), dtype="int64").values}, index=idx)
+            schema = pa.DataFrameSchema({"v": pa.Column(int)}, index=pa.MultiIndex([A.index_schema_of(sp) for sp in m["specs"]]))
+        except Exception:  # noqa: BLE001
+            continue
+        kind, out = P.run_validate(schema, df.copy(), lazy=True)
+        rep.evaluations += 1
+        rep.count("multiindex-report:" + kind)
+        if kind != "errors":
+            continue
+        # a row's label is the tuple of its level values; the report prints it, with integers next to floats upcast
+        def spellings(t):
+            up = tuple(float(x) if isinstance(x, (int, float)) and not isinstance(x, bool) else x for x in t)
+            return {str(t), str(up)}
+        labels = [spellings(t) for t in df.index.tolist()]
+        known = set().union(*labels) if labels else set()
+        canon = lambda lab: next((str(sorted(sp)) for sp in labels if lab in sp), lab)
+        try:
+            fc = out.failure_cases
+            rowlevel = fc[fc["index"].notna()]
+            got = sorted((str(col), canon(str(ix))) for col, ix in zip(rowlevel["column"].tolist(), rowlevel["index"].tolist()))
+            foreign = [(str(col), str(ix)) for col, ix in zip(rowlevel["column"].tolist(), rowlevel["index"].tolist())
+                       if str(ix) not in known]
+        except Exception as e:  # noqa: BLE001
+            rep.property_failure(m, f"MultiIndex: the lazy report could not be read: {type(e).__name__}")
+            continue
+        # (null-valued duplicates are the recorded region of the uniqueness report)
+        want = sorted((str(x["col"]), str(sorted(labels[x["pos"]]))) for e in a["errors"] for x in e["cells"]
+                      if not (e["reason"] == "seriesContainsDuplicates" and x["val"] == "null"))
+        if foreign:
+            rep.property_failure(m, f"MultiIndex: the lazy report names rows {foreign[:3]} that are not labels of the data "
+                                    f"(labels: {[sorted(sp)[0] for sp in labels]})")
+        elif got != want:
+            rep.property_failure(m, f"MultiIndex: the lazy report names {got[:4]}, the violating cells are {want[:4]}")
+
+
 def n_cases(tier):
     return 1200 if tier == "quick" else 30000
 
@@ -153,6 +259,10 @@ def run(tier, replay=None):
     rep.audit["modules"] = MODULES
     if replay:
         cases = [json.loads(open(replay).read())["case"]]
+        if cases[0].get("mode") in ("depth-counts", "multiindex-report"):
+            depth_counts_sweep(rep, rng_for(PROP, "depth-counts"), 150)
+            multiindex_report_sweep(rep, rng_for(PROP, "mi-report"), 200)
+            return rep.finish(rule="replay of the depth-count and MultiIndex report sweeps (deterministic under VERIF_SEED)")
         if cases[0].get("mode") == "labels":
             label_sweep(rep, rng_for(PROP, "labels"), 120)
             return rep.finish(rule="replay of the label sweep (deterministic under VERIF_SEED)")
@@ -160,6 +270,8 @@ def run(tier, replay=None):
         rng = rng_for(PROP)
         cases = corpus_cases(PROP) + [P.gen_case(rng, conform_bias=0.55) for _ in range(n_cases(tier))]
         label_sweep(rep, rng_for(PROP, "labels"), 120 if tier == "quick" else 3000)
+        depth_counts_sweep(rep, rng_for(PROP, "depth-counts"), 150 if tier == "quick" else 3000)
+        multiindex_report_sweep(rep, rng_for(PROP, "mi-report"), 200 if tier == "quick" else 5000)
     impl = [impl_observe(c) for c in cases]
     ans = run_driver("C01", [dict(c, depth="schemaAndData") for c in cases])
     for c, o, a in zip(cases, impl, ans):
